@@ -882,9 +882,11 @@ pub fn tokenize(out: &[u8]) -> Result<Vec<Ev>, String> {
             let k = l.find("int 0 at ").unwrap() + "int 0 at ".len();
             evs.push(Ev::DivErr(parse_num(&l[k..])));
             i = n;
-        } else if r.starts_with("Error at line ") {
+        } else if rest_line(i).0.to_ascii_lowercase().contains("error at line ") {
+            // "Error at line N : text, ..." -- a run-time error report citing a line, whatever stands in front of it
             let (l, n) = rest_line(i);
-            evs.push(Ev::UnsupInt(parse_num(&l["Error at line ".len()..])));
+            let k = l.to_ascii_lowercase().find("error at line ").unwrap() + "error at line ".len();
+            evs.push(Ev::UnsupInt(parse_num(&l[k..])));
             i = n;
         } else if r.starts_with("Invalid input") {
             evs.push(Ev::Invalid);
